@@ -437,24 +437,16 @@ impl BigInt
         let lhs_size = lhs_slice.0 - lhs_slice.1;
         let rhs_size = rhs_slice.0 - rhs_slice.1;
 
-        let mut result = BigInt::from(0);
+        // Whole non-negative values are taken as they are
+        // by `slice`, so that joining large values is not
+        // done bit by bit
+        let lhs_part = self.slice(lhs_slice.0, lhs_slice.1);
+        let rhs_part = rhs.slice(rhs_slice.0, rhs_slice.1);
 
-        for i in 0..(lhs_slice.0 - lhs_slice.1)
-        {
-            result.set_bit(
-                i + rhs_size,
-                self.get_bit(lhs_slice.1 + i));
+        BigInt {
+            bigint: (lhs_part.bigint << rhs_size) | rhs_part.bigint,
+            size: Some(lhs_size + rhs_size),
         }
-
-        for i in 0..(rhs_slice.0 - rhs_slice.1)
-        {
-            result.set_bit(
-                i,
-                rhs.get_bit(rhs_slice.1 + i));
-        }
-
-        result.size = Some(lhs_size + rhs_size);
-        result
     }
 
 
